@@ -17,6 +17,10 @@ type Fact struct {
 	Cond ssa.Value
 	Pol  bool
 	key  string
+	// Imported: the fact was established in a caller of this (extracted, unexported) helper, at every
+	// static call site; Cond is a value of the calling function. Only FactsAtX / FactsOnEdgeX
+	// return such facts.
+	Imported bool
 }
 
 type factSet map[string]Fact
@@ -120,8 +124,8 @@ func (p *Program) computeFacts(fn *ssa.Function) *funcFacts {
 		top[b] = true
 	}
 	entry := fn.Blocks[0]
-	ff.in[entry] = factSet{}
-	ff.out[entry] = factSet{}
+	ff.in[entry] = p.importedFacts(fn)
+	ff.out[entry] = ff.in[entry]
 	top[entry] = false
 	// fn.Recover block (if any) is reachable only via panics; leave TOP -> treat as {} below.
 	changed := true
@@ -191,14 +195,34 @@ func sameFactKeys(a, b factSet) bool {
 	return true
 }
 
-// FactsAt returns the guard facts that hold on entry to block b.
+// FactsAt returns the guard facts established within b's own function that hold on entry to b.
 func (p *Program) FactsAt(b *ssa.BasicBlock) []Fact {
+	return localFacts(p.FactsAtX(b))
+}
+
+// FactsAtX additionally returns the facts imported from the call sites of an extracted helper.
+func (p *Program) FactsAtX(b *ssa.BasicBlock) []Fact {
 	ff := p.computeFacts(b.Parent())
 	return ff.in[b].list()
 }
 
-// FactsOnEdge returns the facts that hold when control flows from -> to.
+func localFacts(fs []Fact) []Fact {
+	out := fs[:0:0]
+	for _, f := range fs {
+		if !f.Imported {
+			out = append(out, f)
+		}
+	}
+	return out
+}
+
+// FactsOnEdge returns the (local) facts that hold when control flows from -> to.
 func (p *Program) FactsOnEdge(from, to *ssa.BasicBlock) []Fact {
+	return localFacts(p.FactsOnEdgeX(from, to))
+}
+
+// FactsOnEdgeX includes facts imported from callers.
+func (p *Program) FactsOnEdgeX(from, to *ssa.BasicBlock) []Fact {
 	ff := p.computeFacts(from.Parent())
 	fs := factSet{}
 	for k, f := range ff.out[from] {
@@ -873,4 +897,40 @@ func (p *Program) phiImplied(ff *funcFacts, top map[*ssa.BasicBlock]bool, f Fact
 		return nil
 	}
 	return common.list()
+}
+
+// importedFacts: an extracted helper (see inlinable) starts with the facts that hold at every one of
+// its static call sites — what was known where the block used to be is still known inside it.
+func (p *Program) importedFacts(fn *ssa.Function) factSet {
+	out := factSet{}
+	if !p.inlinable(fn) || p.importing[fn] {
+		return out
+	}
+	if p.importing == nil {
+		p.importing = map[*ssa.Function]bool{}
+	}
+	p.importing[fn] = true
+	defer delete(p.importing, fn)
+	first := true
+	for _, c := range p.callersOf(fn) {
+		if c.Fn == fn {
+			continue
+		}
+		cand := factSet{}
+		for _, f := range p.FactsAtX(c.Instr.Block()) {
+			f.Imported = true
+			cand[f.key] = f
+		}
+		if first {
+			out = cand
+			first = false
+		} else {
+			for k := range out {
+				if _, ok := cand[k]; !ok {
+					delete(out, k)
+				}
+			}
+		}
+	}
+	return out
 }
